@@ -518,7 +518,10 @@ func (d *db) applyPut(batch WriteBatch, notifications *notifications, putReq *pr
 		prefixKey := putReq.Key
 		newKey, err = generateUniqueKeyFromSequences(batch, putReq)
 		putReq.Key = newKey
-		d.sequenceWaiterTracker.SequenceUpdated(prefixKey, newKey)
+		if err == nil {
+			// a refused sequential put generates no key: there is nothing to tell the subscribers
+			d.sequenceWaiterTracker.SequenceUpdated(prefixKey, newKey)
+		}
 	} else if !internal {
 		se, err = checkExpectedVersionId(batch, putReq.Key, putReq.ExpectedVersionId)
 	}
